@@ -540,7 +540,7 @@ class Harness:
         w('}')
         # ------------------------------------------------------------ real side glue
         w('static RState RS[2]; static %sInstance* RI[2]; static %sInstance* cur_inst; static int cur_id;' % (mod, mod))
-        w('static int phase_real; static int expecting_trap;')
+        w('static int phase_real; static int expecting_trap; static int varied_args = 1;')
         w('static wasmMemory H_mem; static wasmTable H_tab; static wasmFunc H_tabdata[RTAB_SLOTS];')
         gtypes = [m.global_type(i)[0] for i in range(ng)]
         for gi in range(nimpg):
@@ -732,6 +732,12 @@ class Harness:
                 cond = st.get('assume', {}).get(j)
                 if cond:
                     w('    V_ASSUME(%s);' % cond.replace('$', 'a%d' % j))
+                elif fixed is None:
+                    # 'varied' arguments: values a native re-run can tell apart (moderate, inexact floats; non-trivial integers)
+                    w('    varied_args &= %s;' % {
+                        'f32': '(((a%d >> 23) & 0xFF) >= 0x70 && ((a%d >> 23) & 0xFF) <= 0x8F && (a%d & 0xFFF) != 0)' % (j, j, j),
+                        'f64': '(((a%d >> 52) & 0x7FF) >= 0x3F0 && ((a%d >> 52) & 0x7FF) <= 0x40F && (a%d & 0x1FFFFFFF) != 0)' % (j, j, j),
+                        'i32': '((a%d & 0xFFFFFFFFu) > 2)' % j, 'i64': '(a%d > 0x100000000ull)' % j}[t])
                 args_r.append('a%d' % j)
                 args_i.append('%s_of_bits(a%d)' % (TYPE_C[t], j))
             w('    uint64_t rr; R_nfx = 0; I_nfx = 0;')
@@ -758,6 +764,7 @@ class Harness:
                 w('    compare_state(%d, "after call");' % k)
             w('    phase_real = 0; }')
         w('  V_WITNESS("end of script reachable");')
+        w('  if (varied_args) V_WITNESS("end of script reachable with varied arguments");')
         w('}')
         return '\n'.join(o) + '\n'
 
